@@ -156,3 +156,25 @@ Definition cert_names := cert_names_gen current x500_names.
    entry): every certificate is described on its own, in file order. *)
 Definition carrier_names (certs : list (raw_name * raw_name)) : list (bytes * bytes) :=
   map (fun c => cert_names (fst c) (snd c)) certs.
+
+(* ---------- several names rendered one after the other in one process ----------
+   FromRDNSequence (x500.go:68-84), rdnAttrValue (:86-92), escapeRDNAttrValue (:94-122) and
+   x500AttrTypeFromOID (:124-129) assign no package-level variable and keep nothing between two
+   calls (X500AttrTypesByOid is only read): a caller's loop
+       for _, n := range ns { out = append(out, names.FromRDNSequence(n)) }
+   is this fold, whose k-th answer is computed from the k-th name alone.  (The harness's seq op
+   is such a loop; so are PEMFile / parseJKSEntry over the certificates of a carrier.) *)
+Fixpoint render_loop (out : list bytes) (ns : list (list (list atv))) : list bytes :=
+  match ns with
+  | [] => out
+  | n :: rest => render_loop (out ++ [render_dn n]) rest
+  end.
+Definition render_all (ns : list (list (list atv))) : list bytes := render_loop [] ns.
+
+(* the same loop over names.FromRawDN *)
+Fixpoint render_raw_loop (out : list bytes) (ns : list raw_name) : list bytes :=
+  match ns with
+  | [] => out
+  | n :: rest => render_raw_loop (out ++ [from_raw_dn (fst n) (snd n)]) rest
+  end.
+Definition render_all_raw (ns : list raw_name) : list bytes := render_raw_loop [] ns.
